@@ -6,7 +6,7 @@ CONSTANTS
   CloseOn = "wg"
   CtxGen = TRUE
   ContinueOnCtx = FALSE
-  LoopChecksCtx = TRUE
+  LoopChecksCtx = FALSE
 INVARIANTS TypeOK Conservation CloseAfterDrain EofComplete NoStall AllDone BlockedConsumerReleased NoopCloseStartsNothing
 PROPERTIES Settles LiveTerminates
 CHECK_DEADLOCK FALSE
